@@ -35,7 +35,7 @@ def skinny_vec(fn, direction, B, LANES, inkind, V):
         outreq = "__CPROVER_is_fresh(output, %d) || __CPROVER_pointer_equals(output, (void *)input)" % nbytes
     else:
         inb = "%s_LB(input, VG_L, %%d)" % V
-        infresh = "__CPROVER_is_fresh(input, 4 * sizeof(*input))"
+        infresh = "__CPROVER_is_fresh(input, %d)" % (B * LANES)
         outreq = "__CPROVER_is_fresh(output, %d)" % nbytes
     outb = "VU8(output)[%d * VG_L + %%d]" % B
     cellsok = "" if B == 16 else "    __CPROVER_loop_invariant(V64_CELLS_OK(VG_S)) \\\n"
@@ -79,7 +79,7 @@ def mantis_vec(fn, inkind, V, tweakvar):
         twinv = " && ".join("%s.row[%d][VG_L] == VPACK16(VG_T, %d)" % (tweakvar, r, r) for r in range(4))
     else:
         inb = V + "_LB(input, VG_L, %d)"
-        infresh = "__CPROVER_is_fresh(input, 4 * sizeof(*input))"
+        infresh = "__CPROVER_is_fresh(input, 64)"
         outreq = "__CPROVER_is_fresh(output, 64)"
         twload = "VM_LOAD_CELLS(VG_T, ks->tweak)"
         twinv = "VM_IS_GHOST(%s, VG_T)" % tweakvar
